@@ -12,8 +12,8 @@
 EXTENDS MFS, Json, SequencesExt
 
 CONSTANTS Names,    \* entry names (simulation draws paths over them)
-          D,        \* BFS: behaviour length
-          E,        \* emit when Len(hist) = E
+          D,        \* BFS: behaviour length from the empty tree (populated presets: D - 1)
+          E,        \* simulation: behaviour length
           PresetSet \* which initial trees (indices into Presets)
 
 VARIABLES hist, pre, tick
@@ -34,7 +34,9 @@ Presets ==
         @@ (<<"b", "a">> :> Dn(0, 0)) @@ (<<"a", "f">> :> F(<<1>>, 0, 0)) @@ (<<"a", "a", "f">> :> F(<<>>, 0, 0)),
       \* metadata everywhere, a destination file to overwrite
       (<<>> :> Dn(1, 0)) @@ (<<"a">> :> Dn(2, 1)) @@ (<<"b">> :> Dn(0, 2)) @@ (<<"a", "a">> :> Dn(1, 1))
-        @@ (<<"a", "f">> :> F(<<1, 2>>, 1, 1)) @@ (<<"b", "a">> :> F(<<3>>, 2, 0)) @@ (<<"a", "a", "f">> :> F(<<2>>, 0, 2)) >>
+        @@ (<<"a", "f">> :> F(<<1, 2>>, 1, 1)) @@ (<<"b", "a">> :> F(<<3>>, 2, 0)) @@ (<<"a", "a", "f">> :> F(<<2>>, 0, 2)),
+      \* tiny tree for the descriptor probes (GSpecProbe): one directory, one file with content and mtime
+      (<<>> :> Dn(0, 0)) @@ (<<"a">> :> Dn(0, 0)) @@ (<<"a", "f">> :> F(<<1, 1>>, 0, 1)) >>
 
 InitTree == Presets[pre]
 GInit == pre \in PresetSet /\ InitWith(InitTree) /\ hist = <<>> /\ tick = <<>>
@@ -50,15 +52,34 @@ Productive == /\ last'.res \in OkRes /\ (fs' # fs \/ fds' # fds)
               /\ last'.op \in {"Mkdir", "Rm"} => ~last'.a.fl
               /\ last'.op = "Mkdir" => last'.a.par
 
-GNext == /\ Len(hist) < D
+\* the empty tree is explored one step deeper than the populated presets
+Dp == IF pre = 1 THEN D ELSE D - 1
+GNext == /\ Len(hist) < Dp
          /\ Next
-         /\ Len(hist) < D - 1 => Productive
+         /\ Len(hist) < Dp - 1 => Productive
          /\ hist' = Append(hist, StepRec)
          /\ UNCHANGED <<pre, tick>>
 GSpec == GInit /\ [][GNext]_gvars
 
 Out  == PrintT(<<"BEHAVIOUR", ToJson([init |-> Proj(InitTree), steps |-> hist])>>)
-Emit == Len(hist) # E \/ Out
+Emit == Len(hist) # Dp \/ Out
+
+(* ---- descriptor probes: Open, then two productive calls out of the calls that interact with an
+   open descriptor, then a descriptor call (where deviations show) or a read-only call; tiny alphabet (GenMFSProbe.cfg).  Exhaustive, so every open
+   finding about descriptors is met (and reported) deterministically. ------------------------- *)
+PArgPaths == {<<"a">>, <<"a", "f">>}
+PMvDsts   == {<<<<"b">>, FALSE>>}
+PDataSet  == {<<2>>}
+FocusOps  == {"Write", "Truncate", "Rm", "Mv", "Chmod", "Touch", "FlushPath", "FdFlush"}
+GProbeNext == /\ Len(hist) < D
+              /\ Next
+              /\ Len(hist) = 0 => last'.op = "Open" /\ last'.res = "ok"
+              /\ (Len(hist) > 0 /\ Len(hist) < D - 1) => Productive /\ last'.op \in FocusOps
+              /\ Len(hist) = D - 1 => last'.op \in {"FdFlush", "Close", "Truncate", "Write", "FlushRoot", "Lookup"}
+              /\ hist' = Append(hist, StepRec)
+              /\ UNCHANGED <<pre, tick>>
+GSpecProbe == GInit /\ [][GProbeNext]_gvars
+EmitProbe  == Len(hist) # D \/ Out
 
 (* ---- simulation ------------------------------------------------------------------------ *)
 Draw(x)  == [k \in 1..8 |-> RandomElement(0..(9999 + (x % 1)))]   \* parameter: not a constant, drawn afresh each time
